@@ -32,6 +32,16 @@ def cases():
     C.append(("np.fmax(x, y) with NaN entries in y", lambda np, x: np.fmax(x, YN), x0, lambda x, v: v * onp.where(onp.isnan(YN) | (x > YN), 1.0, 0.0)))
     C.append(("np.fmin(y, x) with NaN entries in y", lambda np, x: np.fmin(YN, x), x0, lambda x, v: v * onp.where(onp.isnan(YN) | (x < YN), 1.0, 0.0)))
     C.append(("np.nansum-free: np.where(isnan(y), x, x*y)", lambda np, x: np.where(onp.isnan(YN), x, x * 2.0), x0, lambda x, v: v * onp.where(onp.isnan(YN), 1.0, 2.0)))
+    # masked-out branches whose downstream derivative is infinite or NaN at the constant: the derivative there is an exact 0
+    xm = onp.array([0.0, 1.5, -2.0])
+    C.append(("safe sqrt: np.sqrt(np.where(x > 0, x, 0.0)) with non-positive entries", lambda np, x: np.sqrt(np.where(x > 0, x, 0.0)), xm,
+              lambda x, v: v * onp.where(x > 0, 0.5 / onp.sqrt(onp.where(x > 0, x, 1.0)), 0.0), ("vjp",)))
+    # (reverse mode only: in forward mode the zero tangent meets sqrt'(0) = inf downstream, 0 * inf = nan is inherent to
+    # forward-mode AD without the double-where idiom, not a defect of a rule)
+    C.append(("safe log: np.where(x > 0, np.log(np.where(x > 0, x, 1.0)), 0.0)", lambda np, x: np.where(x > 0, np.log(np.where(x > 0, x, 1.0)), 0.0), xm,
+              lambda x, v: v * onp.where(x > 0, 1.0 / onp.where(x > 0, x, 1.0), 0.0)))
+    C.append(("np.where(x > 0, 0.0, x) ** 0.5-free: 1 / np.where(x == 0, 1.0, x) masked by where", lambda np, x: np.where(x == 0, 0.0, 1.0 / np.where(x == 0, 1.0, x)), xm,
+              lambda x, v: v * onp.where(x == 0, 0.0, -1.0 / onp.where(x == 0, 1.0, x) ** 2)))
     return C
 
 
@@ -88,9 +98,10 @@ def run(seed=0):
 
     out = []
     v = onp.array([0.7, -1.3, 2.1])
-    for lab, f, x0, dclosed in cases():
+    for case in cases():
+        lab, f, x0, dclosed = case[:4]
         want = onp.asarray(dclosed(x0, v), dtype=float)
-        for mode in ("jvp", "vjp"):
+        for mode in (case[4] if len(case) > 4 else ("jvp", "vjp")):
             key = "PINNED %s | %s" % (mode, lab)
             try:
                 with warnings.catch_warnings():
